@@ -14,11 +14,26 @@ import os, sys, subprocess, json, shutil, tempfile, re, time
 
 pid, which = sys.argv[1], sys.argv[2]
 extra = [a for a in sys.argv[3:] if not a.startswith("--")]
-rnd = 3 if "--round3" in sys.argv else 2 if "--round2" in sys.argv else 1
-src = {1: "/tmp/mut_%s/_mut", 2: "/tmp/mut2_%s/_mut", 3: "/tmp/mut3_%s/_mut"}[rnd] % pid
-label = which if rnd == 1 else {"A": "C", "B": "D"}[which]       # later rounds are kept as <PID>-C / <PID>-D
-if rnd == 3 and os.path.exists("/verif/seeded/%s-%s" % (pid, label)) and json.load(open("/verif/seeded/%s-%s/meta.json" % (pid, label))).get("round") == 2:
-    label = {"A": "E", "B": "F"}[which]
+rnd = 1
+for a in sys.argv:
+    if a.startswith("--round"):
+        rnd = int(a[len("--round"):])
+src = {1: "/tmp/mut_%s/_mut"}.get(rnd, "/tmp/mut" + str(rnd) + "_%s/_mut") % pid
+# labels: the first pair of letters that is free or already holds this round's import of this property
+label = None
+for pair in ("AB", "CD", "EF", "GH", "IJ"):
+    cand = pair["AB".index(which)]
+    d0 = "/verif/seeded/%s-%s" % (pid, cand)
+    other = "/verif/seeded/%s-%s" % (pid, pair["BA".index(which)])
+    def rnd_of(d):
+        try:
+            return json.load(open(d + "/meta.json")).get("round") or 1
+        except Exception:
+            return None
+    r0, r1 = rnd_of(d0), rnd_of(other)
+    if (r0 in (None, rnd)) and (r1 in (None, rnd)):
+        label = cand
+        break
 dst = "/verif/seeded/%s-%s" % (pid, label)
 patch = os.path.join(src, which + ".diff")
 
